@@ -27,7 +27,7 @@ def main():
                 continue
             open(path, "w").write(text.replace(m["old"], m["new"]))
             t = time.time()
-            p = subprocess.run([os.path.join(HERE, "check"), m["check"], "--tier", "quick"], capture_output=True, text=True, cwd=HERE)
+            p = subprocess.run([os.path.join(HERE, "check"), m["check"], "--tier", "quick"], capture_output=True, text=True, cwd=HERE, env=dict(os.environ, VSDS_REPLAY_DIR="/tmp/vsds_drill_replays", VSDS_EVIDENCE_DIR="/tmp/vsds_drill_evidence"))
             restore()
             caught = p.returncode == 1 and "VIOLATION property=" + m["check"] in p.stdout
             last = [l for l in p.stdout.splitlines() if l.startswith("   - ")][:1]
